@@ -7,11 +7,15 @@
 (* (c2 Teardown, c2d Destroy), removes input finalizers (c3) and restarts  *)
 (* itself if an error was collected.  The external actor is the one of     *)
 (* LifecycleQT (without the input-side foreign finalizer).                 *)
+(* Extra = TRUE: an extra input kind (WithExtraInputs); the transform      *)
+(* reads the secondary resource (p2 reads, p2w writes); any change of the  *)
+(* secondary wakes the controller.  Image of an input: 10 * in.val + sec.  *)
 (***************************************************************************)
 EXTENDS Integers, Sequences, FiniteSets, TLC
-CONSTANTS MaxExt, Finalizers      \* Finalizers: BOOLEAN (WithInputFinalizers)
-VARIABLES in, out, ext, pc, lin, lout, touched, removeFin, err, dirty
-vars == <<in, out, ext, pc, lin, lout, touched, removeFin, err, dirty>>
+CONSTANTS MaxExt, Finalizers,     \* Finalizers: BOOLEAN (WithInputFinalizers)
+          Extra                  \* BOOLEAN (WithExtraInputs)
+VARIABLES in, out, ext, pc, lin, lout, touched, removeFin, err, dirty, sec, lsec
+vars == <<in, out, ext, pc, lin, lout, touched, removeFin, err, dirty, sec, lsec>>
 Absent == [ex |-> FALSE, ph |-> "run", fins |-> {}, val |-> 0]
 C == "C"
 F == "F"
@@ -19,12 +23,14 @@ Vals == {1, 2}
 DReady(o) == o.ex /\ o.ph = "td" /\ o.fins = {}
 
 Init == in = Absent /\ out = Absent /\ ext = 0 /\ pc = "idle" /\ lin = Absent /\ lout = Absent
-        /\ touched = FALSE /\ removeFin = FALSE /\ err = FALSE /\ dirty = TRUE
+        /\ touched = FALSE /\ removeFin = FALSE /\ err = FALSE /\ dirty = TRUE /\ sec = 0 /\ lsec = 0
 
 (* notifications: any input change; output changes that make / made it destroy-ready *)
 Wake(nin, nout) == dirty \/ nin # in \/ (nout # out /\ (DReady(nout) \/ (~nout.ex /\ DReady(out))))
 ExtStep(nin, nout) == /\ ext < MaxExt /\ ext' = ext + 1 /\ in' = nin /\ out' = nout /\ dirty' = Wake(nin, nout)
-                      /\ UNCHANGED <<pc, lin, lout, touched, removeFin, err>>
+                      /\ UNCHANGED <<pc, lin, lout, touched, removeFin, err, sec, lsec>>
+SecChange == /\ Extra /\ ext < MaxExt /\ ext' = ext + 1 /\ \E v \in {0, 1, 2} \ {sec} : sec' = v
+             /\ dirty' = TRUE /\ UNCHANGED <<in, out, pc, lin, lout, touched, removeFin, err, lsec>>
 Ext == \/ ~in.ex /\ \E v \in Vals : ExtStep([ex |-> TRUE, ph |-> "run", fins |-> {}, val |-> v], out)
        \/ in.ex /\ in.ph = "run" /\ \E v \in Vals \ {in.val} : ExtStep([in EXCEPT !.val = v], out)
        \/ in.ex /\ in.ph = "run" /\ ExtStep([in EXCEPT !.ph = "td"], out)
@@ -34,11 +40,12 @@ Ext == \/ ~in.ex /\ \E v \in Vals : ExtStep([ex |-> TRUE, ph |-> "run", fins |->
 
 W(nin, nout) == in' = nin /\ out' = nout /\ dirty' = Wake(nin, nout)
 Stay == UNCHANGED <<in, out, dirty>>
-K == UNCHANGED <<ext>>
+K == UNCHANGED <<ext, sec>>
+Ks == UNCHANGED lsec
 
-C0 == /\ pc = "idle" /\ dirty /\ pc' = "p1" /\ dirty' = FALSE /\ lin' = in
+C0 == /\ Ks /\ pc = "idle" /\ dirty /\ pc' = "p1" /\ dirty' = FALSE /\ lin' = in
       /\ touched' = FALSE /\ removeFin' = FALSE /\ err' = FALSE /\ UNCHANGED <<in, out, lout>> /\ K
-P1 == /\ pc = "p1" /\ K /\ UNCHANGED <<lin, lout>>
+P1 == /\ Ks /\ pc = "p1" /\ K /\ UNCHANGED <<lin, lout>>
       /\ IF ~lin.ex THEN Stay /\ pc' = "c1" /\ UNCHANGED <<touched, removeFin, err>>
          ELSE IF lin.ph = "td"
          THEN /\ Stay /\ pc' = "c1" /\ UNCHANGED <<touched, err>>
@@ -48,36 +55,38 @@ P1 == /\ pc = "p1" /\ K /\ UNCHANGED <<lin, lout>>
                  THEN IF in.ex THEN W([in EXCEPT !.fins = @ \cup {C}], out) /\ pc' = "p2" /\ UNCHANGED err
                       ELSE Stay /\ err' = TRUE /\ pc' = "c1"           \* AddFinalizer failed: skip the Modify
                  ELSE Stay /\ pc' = "p2" /\ UNCHANGED err
-P2 == /\ pc = "p2" /\ K /\ UNCHANGED <<lin, lout, touched, removeFin>> /\ pc' = "c1"
-      /\ IF ~out.ex THEN W(in, [ex |-> TRUE, ph |-> "run", fins |-> {}, val |-> 10 * lin.val]) /\ UNCHANGED err
-         ELSE IF out.ph = "td" THEN Stay /\ err' = TRUE               \* phase conflict collected as an error
-         ELSE IF out.val = 10 * lin.val THEN Stay /\ UNCHANGED err
-         ELSE W(in, [out EXCEPT !.val = 10 * lin.val]) /\ UNCHANGED err
-C1 == /\ pc = "c1" /\ K /\ Stay /\ lout' = out /\ UNCHANGED <<lin, touched, err>>
+P2 == /\ pc = "p2" /\ K /\ UNCHANGED <<lin, lout, touched, removeFin, err>> /\ Stay /\ lsec' = sec /\ pc' = "p2w"
+Img == 10 * lin.val + lsec
+P2w == /\ pc = "p2w" /\ K /\ Ks /\ UNCHANGED <<lin, lout, touched, removeFin>> /\ pc' = "c1"
+       /\ IF ~out.ex THEN W(in, [ex |-> TRUE, ph |-> "run", fins |-> {}, val |-> Img]) /\ UNCHANGED err
+          ELSE IF out.ph = "td" THEN Stay /\ err' = TRUE               \* phase conflict collected as an error
+          ELSE IF out.val = Img THEN Stay /\ UNCHANGED err
+          ELSE W(in, [out EXCEPT !.val = Img]) /\ UNCHANGED err
+C1 == /\ Ks /\ pc = "c1" /\ K /\ Stay /\ lout' = out /\ UNCHANGED <<lin, touched, err>>
       /\ IF ~out.ex THEN pc' = "c3" /\ UNCHANGED removeFin
          ELSE IF out.ph # "td" /\ touched THEN pc' = "c3" /\ removeFin' = FALSE
          ELSE pc' = "c2" /\ UNCHANGED removeFin
-C2 == /\ pc = "c2" /\ K /\ UNCHANGED <<lin, lout, touched>>
+C2 == /\ Ks /\ pc = "c2" /\ K /\ UNCHANGED <<lin, lout, touched>>
       /\ IF ~out.ex THEN Stay /\ err' = TRUE /\ removeFin' = FALSE /\ pc' = "c3"
          ELSE /\ W(in, [out EXCEPT !.ph = "td"]) /\ UNCHANGED err
               /\ IF out.fins = {} THEN pc' = "c2d" /\ UNCHANGED removeFin ELSE pc' = "c3" /\ removeFin' = FALSE
-C2d == /\ pc = "c2d" /\ K /\ UNCHANGED <<lin, lout, touched>> /\ pc' = "c3"
+C2d == /\ Ks /\ pc = "c2d" /\ K /\ UNCHANGED <<lin, lout, touched>> /\ pc' = "c3"
        /\ IF out.ex /\ out.fins = {} THEN W(in, Absent) /\ UNCHANGED <<err, removeFin>>
           ELSE Stay /\ err' = TRUE /\ removeFin' = FALSE
-C3 == /\ pc = "c3" /\ K /\ UNCHANGED <<lin, lout, touched, removeFin>>
+C3 == /\ Ks /\ pc = "c3" /\ K /\ UNCHANGED <<lin, lout, touched, removeFin>>
       /\ IF removeFin /\ in.ex /\ C \in in.fins THEN W([in EXCEPT !.fins = @ \ {C}], out) ELSE Stay
       /\ pc' = "end" /\ UNCHANGED err
-End == /\ pc = "end" /\ K /\ pc' = "idle" /\ UNCHANGED <<in, out, lin, lout, touched, removeFin, err>>
+End == /\ Ks /\ pc = "end" /\ K /\ pc' = "idle" /\ UNCHANGED <<in, out, lin, lout, touched, removeFin, err>>
        /\ dirty' = (dirty \/ err)           \* a collected error restarts the controller (fresh reconcile after back-off)
-Ctrl == C0 \/ P1 \/ P2 \/ C1 \/ C2 \/ C2d \/ C3 \/ End
-Next == Ext \/ Ctrl
+Ctrl == C0 \/ P1 \/ P2 \/ P2w \/ C1 \/ C2 \/ C2d \/ C3 \/ End
+Next == Ext \/ SecChange \/ Ctrl
 Spec == Init /\ [][Next]_vars
 
 FinBeforeOut == Finalizers => (out.ex => (in.ex /\ C \in in.fins))
 Quiescent == pc = "idle" /\ ~dirty
 Held == out.ex /\ F \in out.fins
 Converged ==
-  /\ (in.ex /\ in.ph = "run") => (out.ex /\ ((out.ph = "run" /\ out.val = 10 * in.val) \/ Held))
+  /\ (in.ex /\ in.ph = "run") => (out.ex /\ ((out.ph = "run" /\ out.val = 10 * in.val + sec) \/ Held))
   /\ (~in.ex) => (~out.ex \/ Held)
   /\ (in.ex /\ in.ph = "td") => ((~out.ex \/ Held) /\ (~out.ex => C \notin in.fins))
 C06 == Quiescent => Converged
